@@ -29,8 +29,10 @@ import numpy as np  # noqa: E402
 THEOREMS = [
     'AbacusVerif.Power.dft_shift',
     'AbacusVerif.Power.dft_const',
+    'AbacusVerif.Power.dft_const_zero',
     'AbacusVerif.Power.dft_kernel_int',
     'AbacusVerif.Power.deposit_perm_invariant',
+    'AbacusVerif.Power.fourierField_translate',
     'AbacusVerif.Power.power_translation_invariant',
     'AbacusVerif.Power.cross_power_translation_invariant',
     'AbacusVerif.Power.table_translation_invariant',
